@@ -1,3 +1,4 @@
+import AquaVerif.Proofs.RunClosedEs
 import AquaVerif.Proofs.Day
 import AquaVerif.Proofs.WaterDay
 /-
@@ -259,5 +260,27 @@ theorem full_day_offseason_zero {α : Type} [Field α] [LinearOrder α] [IsStric
       r.state.growthStage = 0 ∧ r.state.hiRef = 0 ∧ r.state.ccAdj = 0 ∧ r.state.ccxAct = 0 ∧
       r.state.ccxW = 0 ∧ r.state.irrNetCum = r.water.preIrr ∧ r.state.rCor = st.rCor) :=
   fullDay_offseason_zero h hg
+
+/-! ### run level, per-day premises discharged (`Proofs/RunClosed*.lean`) -/
+
+section closed
+variable {α : Type} [Field α] [LinearOrder α] [IsStrictOrderedRing α]
+
+/-- **Run level, closed.** On every simulated day of every run: `0 ≤ EsPot`, `0 ≤ Es ≤ EsPot`,
+`0 ≤ TrPot`, `0 ≤ Tr ≤ TrPot`, deep percolation / capillary rise / groundwater inflow /
+irrigation ≥ 0, ponding within the bunds. -/
+theorem run_flux_closed {F : Fn α} {T : TrigFn α} {cfg : RunCfg α} {s : RunState α} {A : α}
+    (hC : CfgOK F T cfg) (hT : CfgTrOK F cfg A) (hJ : CfgRwOK F cfg) (hE : CfgEsOK cfg)
+    (hW : WeatherOK F cfg) (hr : RunReach F T cfg s) (hR : ∀ d ∈ s.daysRev, ResidualW d) :
+    ∀ d ∈ s.daysRev,
+      (0 ≤ d.r.flux.esPot ∧ 0 ≤ d.r.flux.es ∧ d.r.flux.es ≤ d.r.flux.esPot) ∧
+      (0 ≤ d.r.flux.trPot ∧ 0 ≤ d.r.flux.tr ∧ d.r.flux.tr ≤ d.r.flux.trPot) ∧
+      (0 ≤ d.r.flux.deepPerc ∧ 0 ≤ d.r.flux.cr ∧ 0 ≤ d.r.flux.gwIn ∧ 0 ≤ d.r.water.irr ∧
+        (d.P.W.irr.method ≠ 4 → 0 ≤ d.r.flux.irrDay)) ∧
+      (0 ≤ d.r.state.pond ∧
+        (d.P.fm.bunds = false ∨ d.P.fm.zBund ≤ 0.001 → d.r.state.pond = 0) ∧
+        (d.P.fm.bunds = true → d.st.pond ≤ d.P.fm.zBund → d.r.state.pond ≤ d.P.fm.zBund)) :=
+  Aqua.run_flux_closed hC hT hJ hE hW hr hR
+end closed
 
 end Aqua.C04
